@@ -60,7 +60,12 @@ func (p *TriggerPool) Start(ctx context.Context) context.Context {
 	// context.Done() and context.Err() for context that can be cancelled use a Lock.
 	// To avoid frequent locking - use an atomic.Bool for cancellation instead of checking the
 	// context on each iteration
+	//
+	// stop() reports the work that was still pending as dropped. That belongs to the run: whoever
+	// waits for the pool's completion must not take the totals before it is done.
+	p.manager.runningWorkers.Add(1)
 	go func() {
+		defer p.manager.runningWorkers.Done()
 		<-workerCtx.Done()
 		p.stop()
 	}()
